@@ -125,8 +125,8 @@ fn reference(c: &ResCase) -> (Vec<String>, Outcome_) {
     }
 }
 
-pub fn check_res(c: &ResCase, st: &mut Stats) -> Result<(), String> {
-    st.eval(1);
+/// Installs the case's virtual file system (thread-local harness state read by `vfs_read`).
+fn install_vfs(c: &ResCase) {
     VFS.with(|v| {
         let mut m = v.borrow_mut();
         m.clear();
@@ -145,9 +145,51 @@ pub fn check_res(c: &ResCase, st: &mut Stats) -> Result<(), String> {
             }
         }
     });
-    LOG.with(|l| l.borrow_mut().clear());
+}
+
+pub fn check_res(c: &ResCase, st: &mut Stats) -> Result<(), String> {
+    install_vfs(c);
     let dirs: Vec<&str> = c.dirs.iter().map(|s| s.as_str()).collect();
     let settings = TimeZoneSettings::new(&dirs, vfs_read);
+    judge(c, &settings, st)
+}
+
+/// A history: ONE settings value resolves several TZ values in sequence over one file system. Every step must be exactly what
+/// the reference resolver says for that value alone (the resolution is a function of the value, the directory list and the files,
+/// never of earlier resolutions through the same settings).
+#[derive(Debug, Clone, Serialize, Deserialize, Hash)]
+pub struct HistCase {
+    pub tzs: Vec<String>,
+    pub dirs: Vec<String>,
+    pub vfs: BTreeMap<String, Content>,
+}
+
+pub fn check_hist(h: &HistCase, st: &mut Stats) -> Result<(), String> {
+    let base = ResCase { tz: String::new(), dirs: h.dirs.clone(), vfs: h.vfs.clone() };
+    install_vfs(&base);
+    let dirs: Vec<&str> = h.dirs.iter().map(|s| s.as_str()).collect();
+    let settings = TimeZoneSettings::new(&dirs, vfs_read);
+    let mut served: Vec<usize> = vec![];
+    for (k, tz) in h.tzs.iter().enumerate() {
+        let c = ResCase { tz: tz.clone(), ..base.clone() };
+        judge(&c, &settings, st).map_err(|m| format!("step {k} of the history {:?} through one settings value: {m}", h.tzs))?;
+        // which directory served this step (for the generator statistics)
+        let (exp_log, exp) = reference(&c);
+        if matches!(exp, Outcome_::ZoneFile(_)) && !tz.trim_start_matches(':').starts_with('/') {
+            served.push(exp_log.len());
+        }
+    }
+    if served.windows(2).any(|w| w[0] > 1 && w[1] < w[0]) {
+        st.class("history_later_directory_then_earlier_directory");
+        st.nontrivial(h);
+    }
+    st.class("history");
+    Ok(())
+}
+
+fn judge(c: &ResCase, settings: &TimeZoneSettings<'_>, st: &mut Stats) -> Result<(), String> {
+    st.eval(1);
+    LOG.with(|l| l.borrow_mut().clear());
     let got = settings.parse_posix_tz(&c.tz);
     let log: Vec<String> = LOG.with(|l| l.borrow().clone());
     let (exp_log, exp) = reference(c);
@@ -242,6 +284,10 @@ fn check_local(c: &ResCase, st: &mut Stats) -> Result<(), String> {
 }
 
 pub fn replay(kind: &str, case: &Value) -> Result<(), String> {
+    if kind == "hist" {
+        let h: HistCase = serde_json::from_value(case.clone()).map_err(|e| e.to_string())?;
+        return check_hist(&h, &mut Stats::new());
+    }
     let c: ResCase = serde_json::from_value(case.clone()).map_err(|e| e.to_string())?;
     if kind == "res-alloc-only" {
         use crate::props::c19;
@@ -265,6 +311,27 @@ pub fn replay(kind: &str, case: &Value) -> Result<(), String> {
 }
 
 const NAMES: [&str; 18] = ["EST5EDT,M3.2.0/-0:30,M11.1.0", "EST5EDT,M3.2.0/+2,M11.1.0", "EST5EDT,M3.2.0/25,M11.1.0", "Zone/../Zone/A", "UTC0", "EST5EDT,M3.2.0,M11.1.0", "Europe/Paris", "EST5", "localtime", "AAA0BBB", "posix/UTC", "x", "UTC", "<+03>-3", "Etc/GMT+5", "..//a", "AAA0BBB,J1,J2", "é"];
+
+/// Histories: 2..4 distinct directories, 2..6 relative / absolute / description values, files placed under several of the
+/// directories for the same names (different contents), so that which directory serves a name differs from step to step.
+pub fn arb_hist() -> SBoxedStrategy<HistCase> {
+    let name = proptest::sample::select(vec!["Europe/Paris", "UTC", "x", "posix/UTC", "Etc/GMT+5", "EST5", "UTC0", "<+03>-3", "Zone/../Zone/A", "EST5EDT,M3.2.0,M11.1.0"]);
+    let tz = (prop_oneof![6 => Just(""), 2 => Just(":"), 1 => Just("/abs/"), 1 => Just(" ")], name).prop_map(|(pre, n)| format!("{pre}{n}"));
+    let dirs = proptest::sample::subsequence(vec!["/d1", "/d2", "/usr/share/zoneinfo", "/etc/zoneinfo", "/d1/"], 2..5).prop_shuffle().prop_map(|v| v.into_iter().map(|s| s.to_string()).collect::<Vec<String>>());
+    let content = prop_oneof![6 => (1i32..1000).prop_map(|k| Content::Zone(k * 60)), 1 => Just(Content::Garbage), 1 => Just(Content::Denied)];
+    (proptest::collection::vec(tz, 2..7), dirs, proptest::collection::vec((any::<u32>(), any::<u32>(), content), 1..10))
+        .prop_map(|(tzs, dirs, files)| {
+            let mut vfs = BTreeMap::new();
+            for (a, b, content) in files {
+                let t = &tzs[idx(a, tzs.len())];
+                let n = t.trim().trim_start_matches(':').to_string();
+                let p = if n.starts_with('/') { n } else { format!("{}/{n}", dirs[idx(b, dirs.len())]) };
+                vfs.insert(p, content);
+            }
+            HistCase { tzs, dirs, vfs }
+        })
+        .sboxed()
+}
 
 pub fn arb_case() -> SBoxedStrategy<ResCase> {
     let name = proptest::sample::select(NAMES.to_vec());
@@ -317,15 +384,22 @@ pub fn run(ctx: &Ctx) -> Outcome {
     let mut out = Outcome::new(
         "TZ values {empty, 'localtime', names, TZ descriptions that are also plausible file names ('UTC0', 'EST5EDT,M3.2.0,M11.1.0'), ':'-prefixed, absolute, relative, padded with ASCII or Unicode-only whitespace on either side, ':' after padding, non-sentences, non-ASCII} x directory lists of 0..3 entries (incl. empty and relative directories, the root, directories with a trailing slash) \
          x virtual file systems populated preferentially on the candidate paths (valid TZif files of distinct zones, garbage, empty files), driven through the injectable read function, which records every requested path. Oracle: a reference resolver written from the property text / tzset(3): exact sequence of opened paths + outcome class + decoded zone. \
-         Non-trivial: at least two candidate paths, or file and description both viable, or a malformed file present on a candidate path, or a ':' value, or a padded value.",
+         Histories: one settings value resolves 2..6 values in sequence over one file system in which the same names exist under several directories; every step must equal the reference's answer for that value alone. Non-trivial: at least two candidate paths, or file and description both viable, or a malformed file present on a candidate path, or a ':' value, or a padded value; for histories: a name served by a later directory followed by one served by an earlier directory.",
     );
     out.assumptions = vec![
         "the read function is a plain fn reading a thread-local virtual file system of the harness (no real file system involved)".into(),
         "the property is checked in both configurations in which TimeZoneSettings exists: default features (in-process) and `alloc` without `std` (through C19's probe binary, 4 000 cases quick / 60 000 thorough)".into(),
     ];
-    let cases = ctx.tier.pick(60_000u32, 3_000_000u32);
+    let cases = ctx.tier.pick(200_000u32, 3_000_000u32);
     let strat = arb_case();
     let rs = par_shards(16, |shard, st| pt_shard(ctx, "res", shard, cases, &strat, st, check_res));
+    out.absorb_all(rs);
+    if out.failure.is_some() {
+        return out;
+    }
+    // histories through one settings value (a resolver that remembers where it last found something is wrong from the second step on)
+    let hstrat = arb_hist();
+    let rs = par_shards(8, |shard, st| pt_shard(ctx, "hist", 200 + shard, cases / 10, &hstrat, st, check_hist));
     out.absorb_all(rs);
     if out.failure.is_some() {
         return out;
